@@ -26,7 +26,7 @@ class VersionValueObject(ValueObject):
     (as: tuple of numbers).
     """
 
-    def __int__(self, value, compare_func=None):
+    def __init__(self, value, compare_func=None):
         if isinstance(value, six.string_types):
             value = self.to_version_tuple(value)
         super(VersionValueObject, self).__init__(value, compare_func)
